@@ -7,9 +7,9 @@ func init() {
 		ID:    "C10",
 		Title: "Invalid operations never reach a service; service errors reach the client intact",
 		Kernels: []Kernel{
-			{Name: "invalid-operations", Pkg: ".", Files: files, Entry: "VerifInvalidOperations", Mode: "seq",
+			{Name: "invalid-operations", Pkg: ".", Files: files, Entry: "VerifInvalidOperations", Mode: "seq", Native: true,
 				Reach: []string{"invalid next to valid", "invalid alone"}, Functions: fns},
-			{Name: "service-errors", Pkg: ".", Files: files, Entry: "VerifServiceErrors", Mode: "seq",
+			{Name: "service-errors", Pkg: ".", Files: files, Entry: "VerifServiceErrors", Mode: "seq", Native: true,
 				Reach: []string{"child step failed", "root step failed", "chunked downstream calls"}, Functions: fns},
 		},
 		Assume: []string{
